@@ -63,6 +63,7 @@ def _s(x, env=None):
     """canonical string of an expression tree"""
     if not isinstance(x, dict): return '?'
     op = x.get('op')
+    if op == 'call' and env and x.get('eid') in (env.get('$xchg') or {}): return _envp(env['$xchg'][x['eid']], env)
     if op in ('path', 'call'): return _envp(x.get('p') or '?', env)
     if op == 'un': return '%s(%s)' % (x.get('o'), _s(x.get('e'), env))
     if op == 'bin':
@@ -86,13 +87,25 @@ def atom_env(f):
     env = {}
     for i, p in enumerate(f.get('params', [])):
         if p.get('name'): env[p['name']] = '$p%d' % i
+    # std::exchange(x, v) yields the old x: in a test it reads as x
+    xchg = {}
+    for b in f.get('blocks', []):
+        for e in b['elems']:
+            if e.get('k') == 'call' and (e['callee'].get('name') or '').split('::')[-1] == 'exchange' and not e['callee'].get('base') and e.get('args') \
+                    and isinstance(e['args'][0], dict) and e['args'][0].get('op') == 'path':
+                xchg[e.get('eid')] = e['args'][0]['p']
+    env['$xchg'] = xchg
     for b in f.get('blocks', []):
         for e in b['elems']:
             if e.get('k') != 'decl': continue
             for v in e['vars']:
                 if v['var'] in env: continue
                 init = v.get('init')
-                if isinstance(init, dict):
+                if isinstance(init, dict) and init.get('op') == 'path' and not (init.get('p') or '').startswith(('#', '<')):
+                    env[v['var']] = _envp(init['p'], env)           # a plain copy of x reads as x
+                elif isinstance(init, dict) and init.get('op') == 'call' and init.get('eid') in xchg:
+                    env[v['var']] = xchg[init['eid']]
+                elif isinstance(init, dict):
                     t = _s(init, env)
                     env[v['var']] = '$(%s)' % t[:80]
                 else:
